@@ -26,7 +26,7 @@ ASSUMPTIONS = [
 RULE = (
     "quick: all strings of length <=3 over the 21-symbol alphabet a b 1 0 + - * : / ^ ( ) [ ] ~ | ` { } space . (9724 strings) "
     "+ random strings over an extended alphabet incl. quotes, %, dots, commas, non-ASCII letters/digits/spaces (length<=12) + mutated "
-    "grammar-derived formulas, each with a random feature-flag subset and intercept setting; thorough: length<=4 exhaustively (204205); plus 'reconfig' cases: a parser that was used under wider feature flags and then narrowed with set_feature_flags must behave like a fresh parser with the narrow flags; and 10x the random streams. "
+    "grammar-derived formulas, each with a random feature-flag subset and intercept setting; thorough: length<=4 exhaustively (204205); plus 'reconfig' cases: a parser that was used under wider feature flags and then narrowed with set_feature_flags, or that was pickled and restored / deep-copied after use, must behave like a fresh parser with the same flags; and 10x the random streams. "
     "non-trivial = contains an operator or bracket character; distinct by canonical JSON"
 )
 
@@ -82,8 +82,17 @@ def cases(rng, tier):
         s = rng.choice(["y ~ x", "x | z", "y ~ x | z", "y ~ [x ~ z]", "a | b ~ c", "[a ~ b] | c", "~ a", "a + b"])
         if rng.random() < 0.4:
             s = c01.mutate(rng, s)
-        yield dict(kind="reconfig", s=s, cfg=cfg, wide=wide, via=rng.choice(["parser", "resolver"]),
+        yield dict(kind="reconfig", s=s, cfg=cfg, wide=wide, via=rng.choice(["parser", "resolver", "pickle", "deepcopy"]),
                    warmup=rng.sample(["a + b", "y ~ x | z", "y ~ [x ~ z]", "("], rng.randint(0, 2)), avail=None)
+    for _ in range(nrand // 8):
+        # structured specifications (mapping / keyword / list forms) handed to Formula with a restricted parser:
+        # every nested string must be parsed under that parser's flags
+        cfg = dict(rng.choice(ALL_CFG))
+        pool = ["x", "x + z", "x | z", "y ~ x", "a:b - 1", "[x ~ z]", "x ~ z | w", "(", "a +", "~ q"]
+        parts = {k: (c01.mutate(rng, v) if rng.random() < 0.15 else v)
+                 for k, v in zip(rng.sample(["lhs", "rhs", "extra"], rng.randint(1, 3)), rng.sample(pool, 3))}
+        yield dict(kind="nested", form=rng.choice(["dict", "kwargs", "assign", "list"]), parts=parts,
+                   s=next(iter(parts.values())), cfg=cfg, avail=None)
     for _ in range(nrand // 5):
         st = gen_stage(rng, 2)
         s = rng.choice(["{0}", "y ~ {0}", "{0} + x", "{0} ~ z", "{0} | w", "y ~ x + {0} : {1}", "{0} ** 2"]).format(st, gen_stage(rng, 1))
@@ -113,7 +122,12 @@ def describe(c):
 
 def impl_reconfig(c):
     """a parser used under `wide` flags, then narrowed to c['cfg'] with set_feature_flags (history of calls)"""
+    import copy
+    import pickle
+
     wide = dict(c["cfg"], **c["wide"])
+    if c["via"] in ("pickle", "deepcopy"):
+        wide = c["cfg"]  # a configured parser that travels (pickle round trip / deep copy) keeps its configuration
     p = pc.make_parser(wide)
     try:
         for warm in c["warmup"]:
@@ -122,7 +136,11 @@ def impl_reconfig(c):
             except Exception:
                 pass
         flags = {k for k in ("twosided", "multipart", "multistage") if c["cfg"][k]}
-        if c["via"] == "parser":
+        if c["via"] == "pickle":
+            p = pickle.loads(pickle.dumps(p))
+        elif c["via"] == "deepcopy":
+            p = copy.deepcopy(p)
+        elif c["via"] == "parser":
             p.set_feature_flags(flags)
         else:
             p.operator_resolver.set_feature_flags(flags)
@@ -135,9 +153,37 @@ def nontrivial(c):
     return any(ch in c["s"] for ch in "+-*:/^~|()[]{}`%'\"")
 
 
+def impl_nested(c):
+    """Formula(<structured spec>, _parser=P): outcome of the whole, and of every nested string on its own"""
+    from formulaic import Formula
+
+    cfg, parts = c["cfg"], c["parts"]
+    out = pc.impl_terms(c["s"], cfg)  # the correspondence still runs on the first nested string
+    out["each"] = {k: pc.impl_formula(v, cfg) for k, v in parts.items()}
+    try:
+        P = pc.make_parser(cfg)
+        if c["form"] == "dict":
+            f = Formula(dict(parts), _parser=P)
+        elif c["form"] == "kwargs":
+            f = Formula(_parser=P, **parts)
+        elif c["form"] == "list":
+            f = Formula([v for v in parts.values()], _parser=P)
+        else:  # build from the first part, then assign the others as attributes
+            ks = list(parts)
+            f = Formula({ks[0]: parts[ks[0]]}, _parser=P)
+            for k in ks[1:]:
+                setattr(f, k, parts[k])
+        out["whole"] = {"formula": pc.canon_val(f)}
+    except Exception as e:
+        out["whole"] = {"error": pc.exc_class(e), "cls": type(e).__name__}
+    return out
+
+
 def impl(c):
     if c["kind"] == "reconfig":
         return impl_reconfig(c)
+    if c["kind"] == "nested":
+        return impl_nested(c)
     return pc.impl_terms(c["s"], c["cfg"], c.get("avail"))
 
 
@@ -188,9 +234,38 @@ def _has(v, what):
     return False
 
 
+def _oracle_nested(c, o):
+    whole, each = o["whole"], o["each"]
+    bad = [k for k, v in each.items() if "error" in v]
+    for k in bad:
+        if each[k]["error"] not in ("FormulaParsingError", "SyntaxError"):
+            return f"nested string {c['parts'][k]!r}: internal exception type escaped: {each[k]['error']}"
+    if bad and "error" not in whole:
+        return (f"the parser rejects {c['parts'][bad[0]]!r} under {c['cfg']}, but Formula(<{c['form']} spec>, _parser=...) "
+                f"accepted it as part {bad[0]!r}")
+    if "error" in whole:
+        if whole["error"].startswith("internal:") and whole.get("cls") not in ("FormulaInvalidError",):
+            return f"Formula(<{c['form']} spec>) let an internal exception type escape: {whole['error']}"
+        if bad and whole["error"] not in ("FormulaParsingError", "SyntaxError"):
+            return f"a nested string is rejected by the parser but Formula(<{c['form']} spec>) raised {whole.get('cls')}"
+        if not bad and c["form"] != "list" and whole["error"] in ("FormulaParsingError", "SyntaxError"):
+            return f"every nested string parses on its own under {c['cfg']}, but Formula(<{c['form']} spec>) raised {whole.get('cls')}"
+        return None
+    if c["form"] != "list":
+        got = whole["formula"].get("s", {}) if isinstance(whole["formula"], dict) else {}
+        for k, v in each.items():
+            if got.get(k) != v["formula"]:
+                return f"part {k!r} of Formula(<{c['form']} spec>) is {got.get(k)}, but {c['parts'][k]!r} parses to {v['formula']}"
+    return None
+
+
 def oracle(c, o):
     if "harness_exception" in o:
         return "parsing did not terminate / harness failure: " + o["harness_exception"]
+    if c["kind"] == "nested":
+        w = _oracle_nested(c, o)
+        if w:
+            return w
     e = o.get("error")
     if e is not None:
         if e == "FormulaParsingError":
